@@ -31,6 +31,7 @@ pub struct DeletionQuery {
     pub nodes: Vec<NodeDelete>,
     pub node_log: Vec<NodeDeletionEntry>,
     pub updated_nodes: Vec<Node>,
+    pub updated_nodes_previous_date: Vec<i64>,
     pub edges: Vec<EdgeDelete>,
     pub edge_log: Vec<EdgeDeletionEntry>,
 }
@@ -46,6 +47,7 @@ impl DeletionQuery {
             nodes: Vec::new(),
             node_log: Vec::new(),
             updated_nodes: Vec::new(),
+            updated_nodes_previous_date: Vec::new(),
             edges: Vec::new(),
             edge_log: Vec::new(),
         };
@@ -68,6 +70,7 @@ impl DeletionQuery {
                         date,
                     })
                 } else {
+                    let mut reference_deleted = false;
                     for edge_deletion in &del.references {
                         let dest = parameters
                             .params
@@ -80,6 +83,7 @@ impl DeletionQuery {
 
                         let edge = Edge::get(&src, &edge_deletion.label, &dest, conn)?;
                         if let Some(edge) = edge {
+                            reference_deleted = true;
                             deletion_query.edges.push(EdgeDelete {
                                 edge: *edge,
                                 src_name: del.name.clone(),
@@ -88,9 +92,13 @@ impl DeletionQuery {
                             });
                         }
                     }
-                    let mut node = *node;
-                    node.mdate = date;
-                    deletion_query.updated_nodes.push(node);
+                    //the node is only modified when a reference is really deleted
+                    if reference_deleted {
+                        let mut node = *node;
+                        deletion_query.updated_nodes_previous_date.push(node.mdate);
+                        node.mdate = date;
+                        deletion_query.updated_nodes.push(node);
+                    }
                 }
             }
         }
@@ -124,6 +132,14 @@ impl DeletionQuery {
     pub fn update_daily_logs(&self, daily_log: &mut DailyMutations) {
         for edg in &self.edge_log {
             daily_log.set_need_update(edg.room_id, &edg.src_entity, edg.deletion_date);
+        }
+        for (i, node) in self.updated_nodes.iter().enumerate() {
+            if let Some(room_id) = &node.room_id {
+                daily_log.set_need_update(*room_id, &node._entity, node.mdate);
+                if let Some(previous_date) = self.updated_nodes_previous_date.get(i) {
+                    daily_log.set_need_update(*room_id, &node._entity, *previous_date);
+                }
+            }
         }
         for log in &self.node_log {
             daily_log.set_need_update(log.room_id, &log.entity, log.mdate);
